@@ -71,6 +71,7 @@ func waterKernelStage(c *vh.Ctx, n int, balance, bounds bool) {
 	}
 	saved := kept
 	c.Correspond("water.step", cases, impl, 1e-9, 1e-12, func(i int) interface{} { return saved[i] })
+	waterSrcImpStage(c, saved)
 	if nc := minI(len(saved), 800); nc > 0 && len(impl) == len(saved) { // the same cases in 8 goroutines at once
 		concurrentKernelStage(c, "water", impl[:nc], 8, 2, func(i int) string {
 			wc := saved[i]
